@@ -32,7 +32,7 @@ def t_uw(osz, extra=()):
     l = ["main.%d:%d" % (i, BIG) for i in range(12)]
     for f, n in (("vf_tl_chain_ok", 1), ("vf_tl_result", 1), ("vf_unchanged_except", 1), ("vf_setup_fs", 1),
                  ("ref_e_range_zeroed", 1), ("vf_stream_equal", 1), ("stub_tl_reset", 1),
-                 ("vf_load", 1)):
+                 ("vf_load", 10)):
         l += ["%s.%d:%d" % (f, i, BIG) for i in range(n)]
     l += ["stub_tl_call.0:8", "stub_tl_call.1:%d" % (osz + 34)]
     return l + list(extra)
@@ -61,7 +61,7 @@ def csum_t_cfgs():
     c.append(dict(base(128), OBJ=O["EXTENT"], BS=128, _tier="thorough"))
     db = base(1024, ["__get_dirent_tail.0:5"])
     for lay in ({"R1": 1012}, {"R1": 12, "R2": 1000}, {"R1": 12, "R2": 12, "R3": 988},
-                {"R1": 1016}, {"R1": 500, "R2": 6}):
+                {"R1": 1016}, {"R1": 500, "R2": 10}):
         c.append(dict(db, OBJ=O["DIRENT"], NSTEP=3, **lay))
     c.append(dict(db, OBJ=O["DIRENT"], NSTEP=3, CSUM=0, R1=1012))
     return c
